@@ -115,6 +115,18 @@ bool splinetable<Alloc>::write_key(const char* key, const T& value){
 										 "contain lowercase characters (key was '"+
 										 std::string(key)+"')");
 		}
+		//"HIERARCH ", "= '" and "'" take 13 of the 80 characters of a card, and
+		//cfitsio keeps at least one character between the quotes
+		if(keylen-1>66)
+			throw std::runtime_error("Long (HIERARCH) FITS header keywords must not be "
+									 "longer than 66 characters (key was '"+
+									 std::string(key)+"')");
+		//cfitsio strips blanks around the keyword and a leading "HIERARCH ", so
+		//such a key would not be found again after a round trip
+		if(key[0]==' ' || key[keylen-2]==' ' || strncmp(key,"HIERARCH ",9)==0)
+			throw std::runtime_error("Long (HIERARCH) FITS header keywords must not begin "
+									 "or end with a blank or begin with 'HIERARCH ' (key was '"+
+									 std::string(key)+"')");
 		maxdatalen=80-(13+keylen-1); //14 characters for "HIERARCH ", "= '", and "'"
 	}
 	std::ostringstream ss;
